@@ -138,6 +138,18 @@ def matrix_case(rec, rng, cid, scratch):
             "flags": flags, "nan_frac": pn, "inf_frac": pinf}
     ref = reference(X[:, idx], y, flags["impute_zero_rated_nan"],
                     flags["remove_nan"], flags["replace_inf"])
+    if rng.random() < .4:
+        # the same directory was loaded before with other flags (each load
+        # is a function of the files and its own flags only)
+        other = dict(replace_inf=bool(rng.integers(2)),
+                     impute_zero_rated_nan=bool(rng.integers(2)),
+                     remove_nan=bool(rng.integers(2)))
+        case["loaded_before_with"] = other
+        rec.event("directories loaded before with other flags")
+        try:
+            IR.load_training_set(d, names=sub, which_type=wt, **other)
+        except BaseException:  # noqa
+            pass
     try:
         out = IR.load_training_set(d, names=sub, which_type=wt,
                                    ret_names=True, **flags)
